@@ -321,6 +321,15 @@ fn program(c: &mut Case) {
     }
 }
 
+/// shapes up to 48x48 and long thin operands of 1025..1500 entries
+fn program_large(c: &mut Case) {
+    if c.rng.bool(0.25) {
+        program_f32(c, 48, 8)
+    } else {
+        program_f64(c, 48, 8)
+    }
+}
+
 fn program_small(c: &mut Case) {
     if c.rng.bool(0.25) {
         program_f32(c, 3, 4)
@@ -838,6 +847,7 @@ fn main() {
         families: vec![
             Family::new("program", 20000, 300000, program),
             Family::new("program_small", 10000, 150000, program_small),
+            Family::new("program_large", 600, 12000, program_large),
             Family::new("decompositions", 3000, 60000, decompositions),
             Family::new("estimators", 2600, 52000, estimators),
             Family::new("shared_model_predict", 1500, 30000, shared_model_predict),
